@@ -177,8 +177,8 @@ def pipeline_case(draw):
             "nonce": draw(st.sampled_from(NONCE_KINDS)), "aux": draw(gens.bytes32_edge),
             "k": draw(nonce32_st), "k2": draw(nonce32_st),
             "rec": draw(st.lists(st.tuples(st.sampled_from(REC_KINDS), st.integers(0, 1 << 64)), min_size=2, max_size=4)),
-            "bad_x": draw(st.sampled_from([None] * 9 + [0, N, N + 1, M256])),
-            "deckey2": draw(st.one_of(gens.seckey_valid, st.sampled_from([0, N, N + 1, M256]))),
+            "bad_x": draw(st.sampled_from([None] * 36 + [0, N, N + 1, M256])),
+            "deckey2": draw(st.one_of(gens.seckey_valid, gens.seckey_valid, st.sampled_from([0, 0, N, N + 1, M256]))),
             "x2": draw(gens.seckey_valid), "mbit": draw(st.integers(0, 255))}
     if draw(st.integers(0, 7)) == 0:
         case["solve"] = draw(st.sampled_from(["sp_zero"]))
@@ -365,7 +365,7 @@ SCALAR_OFF = {"sp": 66, "e": 98, "sd": 130}
 SCALAR_SUBS = ["zero", "n", "n_plus_1", "max", "plus_n", "negate", "inc", "dec", "one", "n_minus_1"]
 POINT_SUBS = ["neg", "offcurve", "other_oncurve", "x_ge_p", "prefix"]
 FLAT_MUTS = (["bitflip"] * 12 + ["scalar:%s:%s" % (f, sub) for f in ("sp", "e", "sd") for sub in SCALAR_SUBS]
-             + ["scalar:sp:zero", "scalar:sp:n", "scalar:sp:plus_n", "scalar:sd:n", "scalar:sd:plus_n", "scalar:sd:zero", "scalar:e:zero"] * 2
+             + ["scalar:sp:zero", "scalar:sp:n", "scalar:sp:plus_n", "scalar:sp:plus_n", "scalar:sd:n", "scalar:sd:plus_n", "scalar:sd:zero", "scalar:e:zero"] * 2
              + ["point:%s:%s" % (f, sub) for f in ("R", "Rp") for sub in POINT_SUBS] * 2 + ["swap_points"] * 2
              + ["ctx_X:" + x for x in ("other", "neg", "swap")] + ["ctx_Y:" + x for x in ("other", "neg", "swap")]
              + ["ctx_msg:" + x for x in ("flip", "plus_n", "minus_n", "other")] * 2)
@@ -376,7 +376,8 @@ def string_case(draw):
     case = {"x": draw(gens.seckey_valid), "y": draw(gens.seckey_valid), "msg": draw(gens.msg32),
             "base": draw(st.sampled_from(["lib", "ref", "ref", "ref_sp", "ref_sp", "ref_rx"])),
             "k": draw(gens.seckey_valid), "k2": draw(gens.seckey_valid),
-            "sp": draw(st.one_of(st.sampled_from([1, 2, N - 1, (N - 1) // 2, (N + 1) // 2, M256 - N]), st.integers(1, M256 - N), st.integers(1, 1 << 64), gens.seckey_valid)),
+            "sp": draw(st.one_of(st.sampled_from([1, 2, N - 1, (N - 1) // 2, (N + 1) // 2, M256 - N, M256 - N + 1]), st.integers(1, M256 - N), st.integers(1, M256 - N),
+                                 st.integers(1, 1 << 64), gens.seckey_valid)),
             "msg_hi": draw(st.booleans()),
             "rx": {"kind": draw(st.sampled_from(["n", "ge_n", "ge_n", "lt_p", "small"])), "delta": draw(st.one_of(st.integers(0, 64), st.integers(0, 1 << 128))),
                    "odd": draw(st.integers(0, 1))}}
@@ -389,6 +390,10 @@ def string_case(draw):
         elif len(parts) > 1:
             mu["sub"] = parts[1]
         muts.append(mu)
+    if case["base"] == "ref_sp" and draw(st.integers(0, 3)) == 0:
+        # the non-canonical twin of a VALID signature: s' small enough that s' + n still fits in 32 bytes
+        case["sp"] = draw(st.one_of(st.integers(1, M256 - N), st.sampled_from([1, M256 - N]), st.integers(1, 1 << 32)))
+        muts = [{"kind": "scalar", "field": "sp", "sub": "plus_n", "a": 0, "b": 0}]
     case["muts"] = muts
     return case
 
@@ -624,14 +629,15 @@ def run_small(env, case):
     return True, classes + ["honest_verified"]
 
 
+# max_workers is kept small for tests that also run on the sanitizer build: each such worker process costs 10-20 CPU-seconds before its first case
 SMALL = {"quick": ["small13", "small199"], "thorough": ["small13", "small199"]}
 TESTS = [
-    Test("pipeline", pipeline_case, run_pipeline, quick=700, thorough=12000,
+    Test("pipeline", pipeline_case, run_pipeline, quick=700, thorough=12000, max_workers=4,
          must_cover=["nonce:" + k for k in sorted(set(NONCE_KINDS))] + ["msg_ge_n", "recover_twin", "rec:s_zero", "rec:unrelated", "rec:other_r", "rec:enckey_neg",
                                                                           "bad_seckey", "fixed_no_sig", "ref_encrypt_match", "ctx:msg_plus_n:1", "deckey_zero", "deckey_foreign"]),
-    Test("verify_strings", string_case, run_string, quick=3000, thorough=120000,
+    Test("verify_strings", string_case, run_string, quick=3000, thorough=120000, max_workers=5,
          must_cover=["base:lib", "base:ref", "base:ref_sp", "base:ref_rx", "rx:r_zero", "rx:x_ge_n", "sp_plus_n_twin", "accept", "reject", "msg_alias",
                      "mut:scalar:sp:zero", "mut:scalar:sd:n", "mut:point:R:neg", "mut:point:Rp:neg", "mut:point:R:x_ge_p", "mut:point:Rp:prefix", "rec:s_zero"]),
     Test("bitflips", sweep_enum, run_sweep, kind="enum", cfgs={"quick": ["prod"], "thorough": ["prod", "vsan"]}, must_cover=["swept"]),
-    Test("small_group", small_case, run_small, quick=1200, thorough=40000, cfgs=SMALL, must_cover=["honest_verified", "sp_reenc", "sd_reenc", "sp_reenc:max"]),
+    Test("small_group", small_case, run_small, quick=1200, thorough=40000, cfgs=SMALL, max_workers=2, must_cover=["honest_verified", "sp_reenc", "sd_reenc", "sp_reenc:max"]),
 ]
